@@ -200,6 +200,7 @@ HEADER = ('Require Import Vault Row Table Grid Tableabs Tablexml Tablechk.\n'
           '    | k => (100 * (S i) + k)%nat end end.\n'
           'Definition mkc (tab : list (Z * Z)) (init : xtable) (l : list stepobs) := (tab, init, l).\n'
           'Definition chk01 (c : list (Z * Z) * xtable * list stepobs) : nat := let \'(tab, init, l) := c in chk_hist (chk_c01 (vcl_of tab)) init 0 0 l.\n'
+          'Definition chkpin (c : list (Z * Z) * xtable * list stepobs) : nat := let \'(tab, init, l) := c in chk_hist chk_pinned init 0 0 l.\n'
           'Definition chk07 (c : list (Z * Z) * xtable * list stepobs) : nat := let \'(tab, init, l) := c in\n'
           '  if in_fragment init && negb (XmlOK init) then 12%nat else chk_hist chk_c07 init 0 0 l.\n')
 
